@@ -266,6 +266,98 @@ def ancestors (p : Path) : List Path := ancestorsAux p.abs p.comps p.comps.lengt
 /-- `full_path.ancestors().any(|a| a == update_dir)` -/
 def underDir (p d : Bytes) : Bool := (ancestors (parsePath p)).any (· == parsePath d)
 
+/-! ### File-system level: a finite tree and `realpath`
+
+`std::fs::canonicalize` on Linux is glibc `realpath(3)` (after a NUL check).  The model follows
+glibc's loop: components are taken from the *string* one at a time; `.` is skipped; `..` drops the
+last resolved component; a symbolic link's target is spliced in front of the rest of the string
+(restarting at `/` when it is absolute); at most 40 links are expanded (`ELOOP`); a non-directory
+followed by anything (even a lone `/`) is `ENOTDIR`.
+
+The world is closed: `/` has the single child `@R@` (the scratch root of the engine; in the real
+run it stands for `<tmp>/verif-<pid>/tNNNN`).  A resolution that steps out of `@R@` (by `..` or by
+an absolute link target that does not start with `/@R@`) is `escaped`: the model makes no claim
+about what is found out there.
+-/
+
+inductive Node where
+  | dir
+  | file
+  | link (target : Bytes)
+  deriving DecidableEq, Repr
+
+/-- A finite file system: link-free absolute paths (lists of names) ↦ node. -/
+structure Fs where
+  nodes : List (List Bytes × Node)
+  deriving Repr
+
+/-- `"@R@"` -/
+def rootName : Bytes := [64, 82, 64]
+
+/-- `lstat`: the root `/` and `/@R@` are directories. -/
+def Fs.get (fs : Fs) (p : List Bytes) : Option Node :=
+  if p.isEmpty || p == [rootName] then some .dir
+  else (fs.nodes.find? (fun e => e.1 == p)).map (·.2)
+
+inductive CanonRes where
+  | ok (p : List Bytes)
+  | err          -- `Err(_)`: ENOENT, ENOTDIR, ELOOP, or a NUL byte in the argument
+  | escaped      -- left the modelled tree
+  | fuelOut      -- the step bound of the model was too small (see `realpathFuel`)
+  deriving DecidableEq, Repr
+
+/-- Skip separators, then split at the next separator: the component and the rest. -/
+def nextComp (s : Bytes) : Bytes × Bytes :=
+  let s' := s.dropWhile (· == 47)
+  (s'.takeWhile (· != 47), s'.dropWhile (· != 47))
+
+/-- glibc `MIN_ELOOP_THRESHOLD` -/
+def maxLinks : Nat := 40
+
+def realpathAux (fs : Fs) : Nat → Nat → List Bytes → Bytes → CanonRes
+  | 0, _, _, _ => .fuelOut
+  | fuel + 1, links, dest, name =>
+    match nextComp name with
+    | (c, rest) =>
+      if c.isEmpty then .ok dest
+      else if c = [46] then realpathAux fs fuel links dest rest
+      else if c = [46, 46] then
+        if dest = [rootName] then .escaped
+        else realpathAux fs fuel links dest.dropLast rest
+      else if dest.isEmpty && c != rootName then .escaped
+      else
+        match fs.get (dest ++ [c]) with
+        | none => .err
+        | some (.link t) =>
+          if links + 1 > maxLinks then .err
+          else realpathAux fs fuel (links + 1) (if hasRoot t then [] else dest) (t ++ rest)
+        | some .dir => realpathAux fs fuel links (dest ++ [c]) rest
+        | some .file => if rest.isEmpty then .ok (dest ++ [c]) else .err
+
+/-- Intended to be enough steps: every step either consumes a component of the current string or
+    expands one of at most 40 links, and a string of length `n` has at most `n` components.
+    (Sufficiency is not proved: `fuelOut` is a separate result that no theorem identifies with
+    `ok`, and the driver reports it as a mismatch; it has never been observed.) -/
+def realpathFuel (fs : Fs) (s : Bytes) : Nat :=
+  (maxLinks + 1) * (s.length + 1 + (fs.nodes.map fun e => match e.2 with | .link t => t.length + 1 | _ => 0).sum + 1)
+
+/-- `std::fs::canonicalize` for an absolute argument. -/
+def canonFs (fs : Fs) (s : Bytes) : CanonRes :=
+  if s.contains 0 then .err
+  else if s.isEmpty then .err
+  else if !hasRoot s then .escaped        -- relative: the working directory is not modelled
+  else realpathAux fs (realpathFuel fs s) 0 [] s
+
+/-- Render a resolved path: `/` for the root, else `/a/b/c`. -/
+def render (p : List Bytes) : Bytes :=
+  if p.isEmpty then [47] else p.flatMap (47 :: ·)
+
+/-- `canonFs` as the `Env.canon` oracle (`escaped`/`fuelOut` have no counterpart: `none`). -/
+def canonOracle (fs : Fs) (s : Bytes) : Option Bytes :=
+  match canonFs fs s with
+  | .ok p => some (render p)
+  | _ => none
+
 /-! ### The endpoint -/
 
 /-- What the consumer of the unit's queue does with the `oneshot` sender of an entry. -/
